@@ -5,6 +5,7 @@ CONSTANTS
   SmallMsg = 4
   BigMsg = 20
   MaxErr = 3
+  RcptBound = 3
   Alphabet <- MCAlphabet
 VIEW View
 INVARIANTS TypeOK C03_ObserverAgrees C03_RcptLimit C04_Enhanced C08_LogoutOnce C08_AllLoggedOutAtClose C19_ErrFlood
